@@ -407,8 +407,8 @@ fn main() {
     let args = parse_args();
     let mut rng = Sm64::new(args.seed);
     let thorough = args.tier == "thorough";
-    let ndatasets = if thorough { 4000 } else { 800 };
-    let maxn: u64 = if thorough { 48 } else { 30 };
+    let ndatasets = if thorough { 2000 } else { 800 };
+    let maxn: u64 = if thorough { 40 } else { 30 };
     let mut out = Out::new(&args.out, args.shards, "C08.Corr", "case", args.only);
     let mets = [Met::L2, Met::L2, Met::L1, Met::Linf];
     let mut id: u64 = 0;
